@@ -195,6 +195,7 @@ class Walk:
         self.repo, self.T, self.view, self.name = repo, types_of(repo), view, name
         self.fields = fields or {}  # text of an attribute expression (`self._sorted_names`) -> concrete value of a witness run
         self.matched: set[str] = set()  # listed names (of a witness run) that were positively recognised as ancestor-or-self
+        self.stored: dict[str, object] = {}  # witness runs: values stored into attributes (to derive further fields in __init__)
         self.looked: set[str] = set()
         self.scan = False
         self.runs = 0
@@ -279,7 +280,7 @@ class Walk:
             return self.decide()
         if isinstance(v, (list, tuple)) and _unk(v) and not v:
             return False
-        return bool(v)
+        return bool(v)  # dictionaries of a witness run included
 
     # ------------------------------------------------------------------ statements
     def block(self, stmts, env, ctx, depth) -> None:
@@ -316,8 +317,16 @@ class Walk:
             key = self.expr(target.slice, env, None, 0) if not isinstance(target.slice, ast.Slice) else UNK
             if _ismap(base):
                 self.look(key, target, base)
+            elif isinstance(base, dict) and isinstance(key, (str, int)):
+                base[key] = value
+            elif isinstance(base, list) and isinstance(key, int) and not isinstance(key, bool) and -len(base) <= key < len(base):
+                base[key] = value
         elif isinstance(target, ast.Attribute):
-            pass
+            if self.fields:
+                try:
+                    self.stored[ast.unparse(target)] = value
+                except Exception:  # noqa: BLE001
+                    pass
 
     def stmt(self, s, env, ctx, depth) -> None:
         self.tick()
@@ -405,6 +414,8 @@ class Walk:
             return list(v)
         if isinstance(v, range):
             return list(v)[:12]
+        if isinstance(v, dict):
+            return list(v)
         return [_d(v)]
 
     # ------------------------------------------------------------------ expressions
@@ -445,6 +456,12 @@ class Walk:
                 return _t(a, b)
             if _isu(b):
                 return OPQ
+            if isinstance(b, dict) and not _isu(a):
+                try:
+                    r_ = a in b
+                except TypeError:
+                    return _d(a)
+                return r_ if isinstance(op, ast.In) else not r_
             if _isu(a):
                 if _ismap(a) and isinstance(b, (list, tuple)):
                     for x in b:
@@ -566,10 +583,10 @@ class Walk:
                     out.append(self.expr(x, env, ctx, depth))
             return tuple(out) if isinstance(e, ast.Tuple) else out
         if isinstance(e, ast.Dict):
-            for k, v in zip(e.keys, e.values):
-                if k is not None:
-                    self.expr(k, env, ctx, depth)
-                self.expr(v, env, ctx, depth)
+            ks = [self.expr(k, env, ctx, depth) if k is not None else None for k in e.keys]
+            vs = [self.expr(v, env, ctx, depth) for v in e.values]
+            if self.fields and all(isinstance(k, (str, int)) and k != "SELF" for k in ks):
+                return dict(zip(ks, vs))  # a witness run: dictionaries built from the concrete names are concrete
             return UNK
         if isinstance(e, (ast.ListComp, ast.SetComp, ast.GeneratorExp)):
             return self.comprehension(e, env, ctx, depth)
@@ -636,6 +653,12 @@ class Walk:
                 return self.look(idx, e, base) if isinstance(idx, str) else (base if isinstance(base, _Node) else UNK)
             if _isopq(base):
                 return OPQ
+            if isinstance(base, dict):
+                if isinstance(idx, (str, int)) and idx in base:
+                    return base[idx]
+                if _isu(idx):
+                    return _t(idx)
+                raise _Abort()
             if _isu(idx) or not isinstance(base, (str, list, tuple)):
                 return OPQ if _concrete(base) else _t(base, idx)
             try:
@@ -808,6 +831,26 @@ class Walk:
                 return self.str_method(recv, m, args, kwargs)
             if recv == ("UNKSTR",):
                 return UNK
+            if isinstance(recv, dict):
+                if m == "get" and args:
+                    return recv.get(args[0], args[1] if len(args) > 1 else None) if isinstance(args[0], (str, int)) else _t(args[0])
+                if m == "items":
+                    return [(k, v) for k, v in recv.items()]
+                if m == "keys":
+                    return list(recv)
+                if m == "values":
+                    return list(recv.values())
+                if m == "setdefault" and len(args) == 2 and isinstance(args[0], (str, int)):
+                    return recv.setdefault(args[0], args[1])
+                if m == "pop" and args and isinstance(args[0], (str, int)):
+                    if args[0] in recv:
+                        return recv.pop(args[0])
+                    if len(args) > 1:
+                        return args[1]
+                    raise _Abort()
+                if m == "copy":
+                    return dict(recv)
+                return _d(*allargs)
             if isinstance(recv, (list, tuple)):
                 return self.list_method(f.value, recv, m, args, env)
             if _isopq(recv):
@@ -1261,7 +1304,42 @@ WITNESS_LISTED = ["aa", "aa-b", "aa.bb", "aa.bb-c", "aa.bb.cc", "aa.bb.cc-d", "a
 WITNESS_QUERIES = ["aa.x", "aa.bb.x", "aa.bb.cc.x", "aa.bb.cc.dd.x", "aa-b.x", "b.c.x"]
 
 
-def order_witness(repo: Repo, view: FuncInfo, field_text: str, key=None) -> tuple[str, str]:
+def _plain_data(v, depth: int = 0) -> bool:
+    if v is None or isinstance(v, (str, int, bool)):
+        return v != "SELF"
+    if depth > 3:
+        return False
+    if isinstance(v, (list, tuple)):
+        return all(_plain_data(x, depth + 1) for x in v)
+    if isinstance(v, dict):
+        return all(isinstance(k, (str, int)) and _plain_data(x, depth + 1) for k, x in v.items())
+    return False
+
+
+def derived_fields(repo: Repo, init_view: FuncInfo | None, field_text: str, listed: list) -> dict:
+    """Further attributes the constructor computes from the sorted list alone (an index of closest listed parents, prefix
+    tables ...), obtained by unrolling the constructor with the list bound to the witness content."""
+    fields: dict = {field_text: listed}
+    if init_view is None or isinstance(init_view.node, ast.Lambda):
+        return fields
+    w = Walk(repo, init_view, "", fields=fields)
+    w.decisions, w.pos, w.steps, w.trace = [], 0, 0, []
+    env: dict = {}
+    for i, p in enumerate(init_view.param_names):
+        env[p] = "SELF" if i == 0 else UNK
+    try:
+        w.block(init_view.node.body, env, init_view, 0)
+    except (_Return, _Abort, _Break, _Continue, Unsupported, RecursionError):
+        pass
+    if w.opaque or w.truncated:
+        return fields
+    for text, v in w.stored.items():
+        if text != field_text and _plain_data(v) and isinstance(v, (dict, list, tuple)) and v:
+            fields[text] = v
+    return fields
+
+
+def order_witness(repo: Repo, view: FuncInfo, field_text: str, key=None, init_view: FuncInfo | None = None) -> tuple[str, str]:
     """('ok' | 'violated' | 'skipped', explanation).  The lookup is unrolled with the sorted list of listed names bound to a
     concrete, adversarial content: siblings whose names continue a listed name with a character that sorts below '.'
     (`aa` < `aa-b` < `aa.bb`), so that raw string order differs from hierarchy order.  Every listed ancestor of the queried name
@@ -1272,8 +1350,9 @@ def order_witness(repo: Repo, view: FuncInfo, field_text: str, key=None) -> tupl
     except Exception:  # noqa: BLE001
         return "skipped", "the sort key could not be applied to the witness names"
     tested = 0
+    bound = derived_fields(repo, init_view, field_text, listed)
     for q in WITNESS_QUERIES:
-        w = Walk(repo, view, q, fields={field_text: listed})
+        w = Walk(repo, view, q, fields={k_: (dict(v_) if isinstance(v_, dict) else list(v_) if isinstance(v_, list) else v_) for k_, v_ in bound.items()})
         try:
             w.explore()
         except (Unsupported, RecursionError):
